@@ -258,7 +258,9 @@ def run_family(pid, fam, n, seed, wdir, log):
         return r
     t = time.time()
     with open(req, 'rb') as fin, open(model, 'wb') as fout:
-        rc, err = sh([DRIVER], stdin=fin, stdout=fout, timeout=3600)
+        # the model normally answers faster than the crate; a model that hangs (e.g. a degenerate cell built from
+        # constants the translator could not read in a changed source) must not stall the check
+        rc, err = sh([DRIVER], stdin=fin, stdout=fout, timeout=min(1800, max(120, 60 + 30 * t_impl)))
     t_model = time.time() - t
     if rc != 0:
         r['error'] = 'model driver failed (rc=%d): %s' % (rc, err[-500:])
